@@ -1,5 +1,6 @@
 import XzVerif.Proofs.Segment
 import XzVerif.Proofs.Tables
+import XzVerif.Proofs.XzRoundTrip
 /-
   C01 — xz write→read round trip is lossless for every input and configuration.
 
@@ -15,6 +16,12 @@ import XzVerif.Proofs.Tables
     consumes every byte and ends cleanly.
   * `C01_tables`: the state machine, length-state and probability-update tables of the Go code
     (regenerated complete graphs) are the ones this codec uses.
+
+  * `C01_container_roundtrip`: whole .xz streams — stream header, any number of blocks (each a
+    well-formed LZMA2 chunk list: any mixture of compressed and raw chunks, resets, optional size
+    fields, header padding), block padding, check of any type, index, footer, stream padding —
+    as laid out by the model emitter are read back by the reader model (Go rules and strict
+    rules) to exactly the concatenated block contents, with a clean end.
 
   Not proved (hence `_partial` in the claim): (1) that the Go match finders only propose
   applicable operations (`OpsOk`) — tied by the correspondence check, which re-encodes the
@@ -37,6 +44,14 @@ theorem C01_segment_roundtrip (p : Props) (strictNoMarker : Bool) (s : St) (tbl 
       res.status = .eof ∧ res.sawMarker = false ∧ res.d.h = x.h ∧ res.d.s = x.s ∧ res.d.tbl = x.tbl ∧
       res.d.ops = ops.toArray ∧ res.d.rd.inp = [] ∧ res.d.rd.code = 0 :=
   segment_roundtrip p strictNoMarker s tbl htbl h ops hops hne
+
+/-- Whole-container round trip of the model: everything `emitStream` lays out for a well-formed
+    stream is decoded by `read` to the stream's content, cleanly. -/
+theorem C01_container_roundtrip (strict : Bool) (cfgCap : Nat) (s : Xz.Stream) (hok : Xz.StreamOk strict s)
+    (hcap : Xz.CapOk strict cfgCap s) :
+    (Xz.read strict cfgCap false (Xz.emitStream s)).status = .eof ∧
+    (Xz.read strict cfgCap false (Xz.emitStream s)).out = Xz.content s :=
+  Xz.read_emitStream strict cfgCap s hok hcap
 
 /-- The bit-level mirror underneath: decoding the decisions written for an operation yields it. -/
 theorem C01_op_codec_mirror (c : Ctx) (op : RawOp) (h : op.wf) (rest : Path) :
